@@ -740,4 +740,82 @@ theorem chain_sound_nf : ∀ (ops : List OpN) (b b' : Bounds) (ids ids' : List N
 /-- non-vacuity: a three-step chain accepted by the analyser with a concrete run -/
 example : ∃ b, runA zero [.add (exactNF [1, 2]) [1, 2], .takeIds [2], .assertB (atLeastNF [1])] = .ok b := ⟨_, rfl⟩
 
+
+/-! ## soundness over op sequences, fungible -/
+
+inductive OpF where
+  | add (amount : Bounds) (c : Int)
+  | takeAmt (t : Int)
+  | takeAll
+  | assertB (a : Bounds)
+
+def stepAF (b : Bounds) : OpF → Except BErr Bounds
+  | .add amount _ => add b amount
+  | .takeAmt t => (match take b (.amount t) with | .ok (rem, _) => .ok rem | .error e => .error e)
+  | .takeAll => .ok zero
+  | .assertB a => handleAssertion b a
+
+def runAF : Bounds → List OpF → Except BErr Bounds
+  | b, [] => .ok b
+  | b, op :: rest => match stepAF b op with | .ok b' => runAF b' rest | .error e => .error e
+
+/-- a run-time execution that does not fail; the bounds added / asserted are fungible-well-formed
+(`WFf`) — which excludes exactly the empty-allowlist corner of `assert_unsound_fungible_empty_allowlist` -/
+inductive StepCF : Int → OpF → Int → Prop where
+  | add {x c amount} : GammaF amount c → WFf amount → StepCF x (.add amount c) (x + c)
+  | takeAmt {x t} : 0 ≤ t → t ≤ x → StepCF x (.takeAmt t) (x - t)
+  | takeAll {x} : StepCF x .takeAll 0
+  | assertB {x a} : a.MeansF x → WFf a → StepCF x (.assertB a) x
+
+inductive RunCF : Int → List OpF → Int → Prop where
+  | nil {x} : RunCF x [] x
+  | cons {x x1 x2 op rest} : StepCF x op x1 → RunCF x1 rest x2 → RunCF x (op :: rest) x2
+
+/-- **chain_sound (fungible), PARTIAL** (assertion / addend bounds restricted to `WFf`, see
+`assert_sound_f_partial`): for every op sequence the analyser accepts, every non-failing concrete
+execution ends with an amount inside the final bounds. -/
+theorem chain_sound_f_partial : ∀ (ops : List OpF) (b b' : Bounds) (x x' : Int),
+    WFf b → GammaF b x → runAF b ops = .ok b' → RunCF x ops x' → GammaF b' x' ∧ WFf b' := by
+  intro ops
+  induction ops with
+  | nil =>
+    intro b b' x x' w g h hc
+    simp only [runAF] at h; injection h with h; subst h
+    cases hc; exact ⟨g, w⟩
+  | cons op rest ih =>
+    intro b b' x x' w g h hc
+    simp only [runAF] at h
+    cases hs : stepAF b op with
+    | error e => rw [hs] at h; cases h
+    | ok b1 =>
+      rw [hs] at h; dsimp only at h
+      cases hc with
+      | cons hstep hrest =>
+        have key : ∀ x1, StepCF x op x1 → GammaF b1 x1 ∧ WFf b1 := by
+          intro x1 hst
+          cases hst with
+          | add ga wa =>
+            simp only [stepAF] at hs
+            exact add_sound_f _ _ _ _ _ w wa g ga hs
+          | takeAmt h0 h1 =>
+            simp only [stepAF] at hs
+            split at hs
+            · rename_i rem taken ht
+              injection hs with hs; subst hs
+              obtain ⟨k1, _, k3⟩ := take_sound_f _ _ _ _ _ w g h0 h1 ht
+              exact ⟨k1, k3⟩
+            · cases hs
+          | takeAll =>
+            simp only [stepAF] at hs; injection hs with hs; subst hs
+            refine ⟨(take_all_sound b).2.1, rfl, ?_⟩
+            intro l hl
+            simp only [zero, AllowedIds.allowlist.injEq] at hl
+            subst hl
+            exact ⟨rfl, by simp [zero, UpperBound.equiv]⟩
+          | assertB ga wa =>
+            simp only [stepAF] at hs
+            exact assert_sound_f_partial _ _ _ _ w wa g ga hs
+        obtain ⟨g1, w1⟩ := key _ hstep
+        exact ih b1 b' _ x' w1 g1 h hrest
+
 end Radix.ResBounds
